@@ -315,8 +315,8 @@ Proof.
       inversion Hwp as [|? ? Hw1 Hw2]; subst. inversion Hw2 as [|? ? Hw3 _]; subst.
       pose proof (rprep_wp _ _ _ Ea Hw3 Husr) as Heq.
       rewrite HU in Heq. unfold wstore in Heq. rewrite Ea in Heq.
-      repeat split; try reflexivity; try assumption.
-      intros _. destruct (HA eq_refl) as (Hn & Hwo & Hwu). repeat split; assumption.
+      refine (conj eq_refl (conj eq_refl (conj Heq _))). intros _.
+      destruct (HA eq_refl) as (Hn & Hwo & Hwu). exact (conj Hne (conj Hw1 Hwu)).
     + rewrite eff_owner_nonempty by assumption.
       repeat split; try reflexivity; try congruence.
       unfold rprep in Husr. rewrite Ea in Husr. rewrite HU in Husr. unfold wstore in Husr. rewrite Ea in Husr.
@@ -333,8 +333,7 @@ Proof.
       inversion Hwp as [|? ? Hw1 Hw2]; subst. inversion Hw2 as [|? ? Hw3 _]; subst.
       pose proof (rprep_wp _ _ _ Ea Hw1 Hacc) as Heq1. pose proof (rprep_wp _ _ _ Ea Hw3 Husr) as Heq2.
       rewrite HO in Heq1. rewrite HU in Heq2. unfold wstore in Heq1, Heq2. rewrite Ea in Heq1, Heq2.
-      repeat split; try reflexivity; try assumption.
-      intros _. exact (HA eq_refl).
+      refine (conj eq_refl (conj Heq1 (conj Heq2 _))). intros _. exact (HA eq_refl).
     + unfold rprep in Hown, Husr. rewrite Ea in Hown, Husr. rewrite HO in Hown. rewrite HU in Husr.
       unfold wstore in Hown, Husr. rewrite Ea in Hown, Husr.
       repeat split; try reflexivity; try congruence.
@@ -399,3 +398,44 @@ Proof.
 Qed.
 
 End P.
+
+(* ---- assembled statements ---- *)
+
+Lemma neither_password_rejected prep e a b :
+  validate_owner prep e a b <> VOk -> validate_user prep e b <> VOk ->
+  opens prep e a b = false
+  /\ (access prep false e a b = EWrongPassword \/ access prep false e a b = EValidate)
+  /\ (validate_owner prep e a b = VNo -> validate_user prep e b = VNo -> access prep false e a b = EWrongPassword)
+  /\ (exists x, step prep (Encrypted e) (OpDecrypt a b) = (RErr x, Encrypted e))
+  /\ forall nb pk be hp, opened (setup_key nb (validate_owner prep e a b) (validate_user prep e b) pk be hp) = false.
+Proof.
+  intros Ho Hu.
+  assert (Hop : opens prep e a b = false).
+  { unfold opens, access. apply setup_key_neither; assumption. }
+  split; [exact Hop|]. split; [apply access_not_opened_class; assumption|].
+  split; [intros H1 H2; unfold access; rewrite H1, H2; reflexivity|].
+  split.
+  - cbn. unfold opens in Hop. rewrite Hop. eexists; reflexivity.
+  - intros. apply setup_key_neither; assumption.
+Qed.
+
+Lemma history_current prep h :
+  hist_wp prep Plain h ->
+  match run prep Plain h, cur prep None Plain h with
+  | Plain, None => True
+  | Encrypted e, Some c =>
+    (forall a b, opens prep e a b = true <->
+       owner_accepts prep c a b \/ (~ slot_err prep (cR c) a /\ accepts prep (cR c) (cU c) b))
+    /\ opens prep e (cO c) [] = true /\ opens prep e [] (cU c) = true
+    /\ (forall x, ~ accepts prep (cR c) (cO c) x -> ~ accepts prep (cR c) (cU c) x ->
+          opens prep e [] x = false /\ (~ accepts prep (cR c) (cU c) [] -> opens prep e x [] = false))
+  | _, _ => False
+  end.
+Proof.
+  intros Hwp. pose proof (history_rel prep h Plain None I Hwp) as Hrel.
+  destruct (run prep Plain h) as [|e]; destruct (cur prep None Plain h) as [c|]; try exact Hrel; try exact I.
+  split; [intros a b; apply opens_iff; exact Hrel|].
+  destruct (current_open prep e c Hrel) as (H1 & H2 & _).
+  split; [exact H1|]. split; [exact H2|].
+  intros x. apply stale_rejected. exact Hrel.
+Qed.
